@@ -26,7 +26,7 @@ OPAQUE = -2  # a value the model does not track (argument tuples, strings, ...):
 SENTINEL = 1  # the pool's stop event object when it travels through the queue
 
 MODELLED = ("ThreadPool", "FutureResult", "EventData")
-GLOBAL_MARKS = ("stop_returned", "pool_serving")
+GLOBAL_MARKS = ("stop_returned", "pool_serving", "shutdown_request", "socket_closed")
 
 
 class Universe(object):
@@ -432,6 +432,8 @@ class ExprCompiler(object):
             sort, base = ctx.locals[name]
             full = ctx.lvar(name)
             return Val(sort, (lambda env, n=full: env.l(n)), base)
+        if name in GLOBAL_MARKS:
+            return Val("bool", lambda env, n=name: env.g(n))
         if name in ("queue", "threading", "logging"):
             return const("Opaque", OPAQUE)
         if name in ctx.lo.scenario_consts:
@@ -945,6 +947,9 @@ class StmtLowering(object):
             return meth(stmt, ctx, k)
         finally:
             self.cur_ctx = saved
+
+    def s_Global(self, stmt, ctx, k):
+        return k
 
     def s_Pass(self, stmt, ctx, k):
         return self.simple(stmt.lineno, "pass", None, k)
@@ -1779,7 +1784,7 @@ def build_system(source, filename, universe, client_programs, allow_start_failur
     # monitors
     for name in ("running", "max_running", "start_seq"):
         init[name] = 0
-    for name in ("ran_while_stopped", "stop_returned", "pool_serving", "bad_task", "overflow", "cb_wrong_extra", "W.overflow", "worker_died"):
+    for name in ("ran_while_stopped", "stop_returned", "pool_serving", "shutdown_request", "socket_closed", "bad_task", "overflow", "cb_wrong_extra", "W.overflow", "worker_died"):
         init[name] = False
     init["allow_start_failure"] = bool(allow_start_failure)
     for i in range(U.M):
